@@ -12,6 +12,7 @@ pub mod delta_roundtrip;
 pub mod deltaid;
 pub mod history;
 pub mod array_chain;
+pub mod junk_blocks;
 pub mod merge;
 pub mod pack;
 pub mod patch;
@@ -21,6 +22,7 @@ pub mod tree;
 pub fn run(name: &str, thorough: bool, seed: u64) -> Option<Report> {
     match name {
         "merge_arrays" => Some(merge::run(thorough, seed)),
+        "junk_blocks" => Some(junk_blocks::run(thorough, seed)),
         "array_chain" => Some(array_chain::run(thorough, seed)),
         "revision" => Some(revision::run(thorough, seed)),
         "tree" => Some(tree::run(thorough, seed)),
@@ -40,6 +42,7 @@ pub fn run(name: &str, thorough: bool, seed: u64) -> Option<Report> {
 pub fn replay(name: &str, case: &Value) -> Value {
     match name {
         "merge_arrays" => merge::replay(case),
+        "junk_blocks" => junk_blocks::replay(case),
         "array_chain" => array_chain::replay(case),
         "revision" => revision::replay(case),
         "tree" => tree::replay(case),
